@@ -59,7 +59,7 @@ fn content_of(v: &Value) -> Vec<u8> {
 
 const SENTINEL: i64 = 1_000_000_000; // 2001-09-09
 
-fn write_file(root: &Path, f: &Value) {
+fn write_file(root: &Path, f: &Value) -> Vec<u8> {
     let p = root.join(f["path"].as_str().unwrap());
     if let Some(d) = p.parent() {
         std::fs::create_dir_all(d).unwrap();
@@ -67,17 +67,18 @@ fn write_file(root: &Path, f: &Value) {
     if let Some(t) = f.get("symlink").and_then(|x| x.as_str()) {
         let _ = std::fs::remove_file(&p);
         std::os::unix::fs::symlink(t, &p).unwrap();
-        return;
+        return vec![];
     }
     let mut data = content_of(f);
     if f.get("subst").and_then(|x| x.as_bool()).unwrap_or(false) {
         data = String::from_utf8_lossy(&data).replace("{root}", &root.display().to_string()).into_bytes();
     }
-    std::fs::write(&p, data).unwrap();
+    std::fs::write(&p, &data).unwrap();
     if let Some(m) = f.get("mode").and_then(|x| x.as_u64()) {
         use std::os::unix::fs::PermissionsExt;
         std::fs::set_permissions(&p, std::fs::Permissions::from_mode(m as u32)).unwrap();
     }
+    data
 }
 
 fn set_sentinel(dir: &Path) {
@@ -176,7 +177,11 @@ fn run_isolated(root: &Path, r: &Value) -> Value {
 pub fn cmd_runstep(args: &[String]) -> i32 {
     let spec: Value = serde_json::from_str(&args[0]).unwrap();
     ctl::install_panic_hook();
-    let v = run_lib(Path::new(spec["root"].as_str().unwrap()), &spec["run"]);
+    let root = Path::new(spec["root"].as_str().unwrap());
+    if let Some(d) = spec["run"].get("chdir").and_then(|x| x.as_str()) {
+        std::env::set_current_dir(root.join(d)).unwrap();
+    }
+    let v = run_lib(root, &spec["run"]);
     println!("{}", serde_json::to_string(&v).unwrap());
     std::io::stdout().flush().unwrap();
     unsafe { libc::_exit(0) }
@@ -186,7 +191,10 @@ fn run_lib(root: &Path, r: &Value) -> Value {
     if r.get("isolate").and_then(|x| x.as_bool()).unwrap_or(false) {
         return run_isolated(root, r);
     }
-    let base = root.join(r.get("base").and_then(|x| x.as_str()).unwrap_or("."));
+    let base = match r.get("base_raw").and_then(|x| x.as_str()) {
+        Some(b) => PathBuf::from(b),
+        None => root.join(r.get("base").and_then(|x| x.as_str()).unwrap_or(".")),
+    };
     let n = r.get("threads").and_then(|x| x.as_u64()).unwrap_or(2) as usize;
     let cfg = Config {
         base_dir: base,
@@ -305,8 +313,8 @@ fn run_case(case: &Value, root: &Path, cli: &str, templates: &Value) -> Value {
     let mut initial: std::collections::HashMap<String, Vec<u8>> = std::collections::HashMap::new();
     if let Some(t) = case.get("template").and_then(|x| x.as_str()) {
         for f in templates[t].as_array().unwrap_or(&vec![]) {
-            write_file(root, f);
-            initial.insert(f["path"].as_str().unwrap().to_string(), content_of(f));
+            let d = write_file(root, f);
+            initial.insert(f["path"].as_str().unwrap().to_string(), d);
         }
     }
     let changed_only = case.get("report").and_then(|x| x.as_str()) == Some("changed");
@@ -314,14 +322,14 @@ fn run_case(case: &Value, root: &Path, cli: &str, templates: &Value) -> Value {
         std::fs::create_dir_all(root.join(d.as_str().unwrap())).unwrap();
     }
     for f in case.get("files").and_then(|x| x.as_array()).unwrap_or(&vec![]) {
-        write_file(root, f);
-        initial.insert(f["path"].as_str().unwrap().to_string(), content_of(f));
+        let d = write_file(root, f);
+        initial.insert(f["path"].as_str().unwrap().to_string(), d);
     }
     let sentinel = case.get("sentinel").and_then(|x| x.as_bool()).unwrap_or(false);
     let mut steps_out = vec![];
     for st in case["steps"].as_array().unwrap() {
         if let Some(w) = st.get("write") {
-            write_file(root, w);
+            let _ = write_file(root, w);
             steps_out.push(json!({}));
         } else if let Some(d) = st.get("delete") {
             let p = root.join(d.as_str().unwrap());
